@@ -15,33 +15,52 @@ PROPERTY_FILE = "Properties/C05.v"
 GEN_DEPS = []
 RULE = ("histories of the adaptive loop generated from the seed: initial level 0-3, maximum level up to +4, initial sample "
         "size 0 / 1-8 / 100-200 (1% rule), per pass and level the allocation answer is below / equal / +1 / +1..6 of the "
-        "current count (0-7 for a freshly added level), bias test answers Bernoulli(0, .2, .5, .8), 1-8 answered passes, "
-        "payoff dimension 1-3, df and notional dyadic; plus the fixed-level variant over all (L0, Lmax, N) in a small box; "
-        "plus runs with 1-2 control variates (implementation oracle). non-trivial = at least two passes or one added level "
-        "(adaptive), at least one level above 0 with N >= 1 (fixed)")
+        "current count (0-7 for a freshly added level), bias test answers Bernoulli(0, .2, .4, .8), 1-12 answered passes, "
+        "GENUINE vector payoffs of dimension 1-3 (component j = (j+1) x + j/4, every component of every row checked), df and "
+        "notional dyadic, rates given or (15%) regressed by the engine; every path manager carries a deterministic path tagged "
+        "with (pricing, level); plus the fixed-level variant over all (L0, Lmax, N) in a small box; plus sequences of 2-3 pricings "
+        "on ONE Engine instance (a third of them going to higher levels than the first pricing); plus runs with 1-2 control "
+        "variates, one held short (implementation oracle). non-trivial = at least two passes or one added level (adaptive), a "
+        "further pricing on a used engine, at least one level above 0 with N >= 1 (fixed)")
 MODELLED = ["Engine.price / compute_level_l (single process) / price_with_constant_mc_paths_and_level, MLMCStatistics, "
-            "MLMCResults, Statistic.add/extend, MLMCPath.process(_l0)/discount: hand model Model/Mlmc.v + Model/McStats.v, "
-            "tied by vm_compute correspondence on every history",
+            "MLMCResults, Statistic.add/extend, MLMCPath.process(_l0)/discount (payoff component 0), the per-engine list of path "
+            "managers across pricings: hand model Model/Mlmc.v + Model/McStats.v, tied by vm_compute correspondence on every history",
             "numpy: np.pad zero padding, np.empty (arbitrary content), np.mean, scipy.stats.moment (central moments)",
-            "multiprocess callback path (nb_of_processes != 1), spot statistics, logging, log2 regressions of the rates: not modelled",
-            "control-variate variant (with_cv rows = Y - b (X - price)): implementation oracle only (exact Fraction re-computation)"]
-ASSUMPTIONS = ["compute_mc_paths answers an integer array with one entry per level (numpy raises otherwise)",
+            "payoff components j >= 1 of a vector payoff: not in the Coq model (price() and mlmc_results only read component 0); "
+            "their stored rows are checked by the implementation oracle",
+            "multiprocess callback path (nb_of_processes != 1), spot statistics, logging: not modelled; the log2 regression of the rates "
+            "only feeds the arguments of the criteria callbacks (arbitrary oracles in the model) and is exercised in 15% of the histories",
+            "control-variate variant (with_cv rows = Y - b (X - price), ml/vl/... from the adjusted rows): implementation oracle only "
+            "(exact Fraction re-computation; skipped levels are counted and the check breaks when more than 25% are skipped)",
+            "where N_l = 0 numpy reports nan; the model's totalised value 0 is never compared there, the oracle asserts nan",
+            "mlmc kurtosis: the code's raw-moment formula cancels catastrophically for |dp| >> std(dp) (3.32 reported vs 1.63 exact on "
+            "the same rows at |dp| ~ 7500); compared with a tolerance scaled by E[dp^4]"]
+ASSUMPTIONS = ["compute_mc_paths answers an integer array with one entry per level (numpy raises otherwise; the model reads a missing entry as 0)",
                "sample counts stay below 2^40 so that the float test dNl > 0.01*Nl equals 100*dNl > Nl",
                "nb_of_processes = 1 (the multiprocess path is C08's)",
-               "payoff returns a scalar per path (a vector payoff makes MLMCPath.process_l0 raise in numpy 2)"]
+               "next_level appends the path manager of each new level in increasing level order (tied by the sequence correspondence)"]
 THEOREM_NOTES = {
-    "C05_rows_are_samples": "invariant of the loop, all oracles; the model follows the repaired tree (fix-mc d6e63ca: Nl appended as 0)",
-    "C05_results_from_same_rows": "cl is stated as sum_cost/N_l; that sum_cost is the sum over passes of cost*dN is by definition of the model (checked by correspondence)",
-    "C05_fixed_level_variant": "guard initial_level <= maximum_level (otherwise MLMCStatistics.extend raises IndexError: model returns None; F-C05-2 is therefore not a wrong price but a crash)",
+    "C05_rows_are_samples": "invariant of the loop, all oracles; the model follows the repaired tree (d6e63ca: Nl appended as 0)",
+    "C05_results_from_same_rows": "every clause guarded by 0 < N_l (numpy reports nan where N_l = 0); the content is that the code's central-moment "
+                                  "detour equals the raw moments; cl is in C05_cost_from_passes",
+    "C05_cost_from_passes": "ghost list of (one_simulation_cost, dNl) per pass: sum_cost = sum cost*dNl, N_l = sum dNl, cl = their quotient",
+    "C05_engine_reuse": "repaired tree (fix-mc3 2ee0788: path-manager list restarts at every initialisation); state = list of manager tags; the "
+                        "pre-repair behaviour (stale manager of the first pricing) is the Example C05_stale_manager_before_repair",
+    "C05_fixed_level_variant": "guard initial_level <= maximum_level (otherwise MLMCStatistics.extend raises IndexError: model returns None)",
+    "vector payoffs": "F-C05-3 repaired (fix-mc3 440d935: fine/coarse stacked along the last axis); theorems are about payoff component 0, "
+                      "which is all price() and mlmc_results read",
     "control variates": "no Coq theorem for the with_cv rows of the multilevel engine; covered by the implementation oracle and by C07's model of helper_compute_coefficients",
+    "mc_stddev": "MLMCStatistics.mc_stddev is sum_l sigma_l/sqrt(N_l) in the code (not sqrt(sum sigma_l^2/N_l)); outside the property text, the oracle follows the code",
 }
-LEVEL_TEXT = ("Proof: 4 Coq theorems (closed under the global context) about an executable state-machine model of the multilevel "
+LEVEL_TEXT = ("Proof: 6 Coq theorems (closed under the global context) about an executable state-machine model of the multilevel "
               "engine, for all sample/cost/allocation/convergence oracles, all initial levels, sample sizes, maximum levels and "
               "fuels: at every return each level holds exactly its N_l simulated samples in order (no placeholder, none dropped, "
               "duplicated or overwritten; N_l = number of simulated paths), price() is the sum of the per-level means of fine-coarse "
-              "with coarse = 0 at level 0, ml/vl/mean/var/kurtosis/cl are the textbook functions of those rows, and the same for the "
-              "fixed-level variant. The model is tied to /repo by replaying ~300 generated histories of the real Engine.price under "
-              "vm_compute (rows exact, statistics to 1e-9). Partial: control-variate variant by implementation oracle only.")
+              "with coarse = 0 at level 0, ml/vl/mean/var/kurtosis are the textbook functions of those rows where N_l > 0, sum_cost and "
+              "N_l are the sums over the passes, a re-used engine gives every pricing its own samples through its own path managers, "
+              "and the same for the fixed-level variant. The model is tied to /repo by replaying ~300 histories and ~45 multi-pricing "
+              "sequences of the real Engine.price under vm_compute (rows exact, statistics to 1e-9). Partial: payoff components >= 1 and "
+              "the control-variate variant by implementation oracle only.")
 LEVEL_NOTE = ("Trusted: Coq kernel + vm_compute; the hand-written model Model/Mlmc.v (tied by correspondence, not by translation); "
               "numpy pad/empty/mean and scipy.stats.moment semantics; nb_of_processes = 1.")
 TECHNIQUE = "Coq proof (loop invariant by induction on fuel, list lemmas, Q field identities) + vm_compute correspondence with a scripted coupling process"
@@ -80,7 +99,8 @@ def correspond(res):
         res.bump("added_levels", added)
         res.bump("passes", min(passes, 9))
         res.bump("outcome", "fallthrough" if obs["fallthrough"] else "returned from the convergence branch")
-        res.bump("payoff_dim", spec["dim"])
+        res.bump("payoff_dim (genuine vector payoff, every component checked)", spec["dim"])
+        res.bump("convergence_rates", "regressed by the engine" if spec.get("regress") else "given")
         res.bump("N0_class", "0" if spec["N0"] == 0 else ("<=8" if spec["N0"] <= 8 else ">=100"))
         _violations(res, spec, obs, D.check_c05(spec, obs))
         tag = 1 if obs["fallthrough"] else 0
@@ -202,13 +222,14 @@ def _cov(x, y):
 
 
 def cv_adjusted(y, xs, prices):
-    """textbook: y - b.(x - prices), b solving Sigma_X b = Sigma_XY (the code's b = 0 fall-back when min|Sigma_X| < 1e-12)"""
+    """textbook: y - b.(x - prices), b solving Sigma_X b = Sigma_XY; the code's fall-back b = 0 when a control is degenerate
+    (variance <= 1e-24 * second moment)"""
     k = len(xs)
     S = [[_cov(xs[i], xs[j]) for j in range(k)] for i in range(k)]
     sxy = [_cov(xs[i], y) for i in range(k)]
     b = None
     ill = False
-    if min(abs(v) for row in S for v in row) >= Fraction(1, 10 ** 12):
+    if not any(S[i][i] <= Fraction(1, 10 ** 24) * sum(v * v for v in xs[i]) / len(xs[i]) for i in range(k)):
         b = _solve(S, sxy)
         det = S[0][0] if k == 1 else S[0][0] * S[1][1] - S[0][1] * S[1][0]
         diag = S[0][0] if k == 1 else S[0][0] * S[1][1]
@@ -219,10 +240,14 @@ def cv_adjusted(y, xs, prices):
 
 
 def _control_variates(res, rng):
+    """multilevel engine WITH control variates (compute_coefficients_mlmc): raw rows, control rows, adjusted rows, price()
+    and ml / vl / mean / var / kurtosis (which the code computes from the ADJUSTED rows) against an exact Fraction recomputation.
+    Every skipped level is counted; too many skips break the check."""
     import numpy as np
     from mcscript import make_control_variates
     n_hist = 40 if res.tier == "quick" else 400
     funs = [lambda x: x * x / 8.0, lambda x: max(x - 6.0, 0.0)]
+    n_levels = n_checked = n_skip_ill = n_skip_count = 0
     for i in range(n_hist):
         spec = D.gen_spec(rng, "small")
         spec["dim"] = 1
@@ -237,19 +262,28 @@ def _control_variates(res, rng):
             res.broke("correspondence driver", f"Engine.price with control variates raised {obs['raised']}")
             continue
         res.count(("cv", json.dumps(spec, sort_keys=True)), nontrivial=True, kind=f"adaptive/control-variates-{ncv}")
-        viols = [v for v in D.check_c05(spec, obs) if "mlmc_results" not in v[0]]   # raw rows, N_l, price(no cv)
-        _violations(res, spec, obs, viols)
+        viols = [v for v in D.check_c05(spec, obs) if "mlmc_results" not in v[0] and "reports a number instead of nan" not in v[0]]
+        _violations(res, spec, obs, viols)          # raw rows, N_l, price(no cv)
         st = obs["st"]
         total = Fraction(0)
         skip = False
         df, no = Fraction(spec["df"]), Fraction(spec["notional"])
+        sc = abs(df * no)
+        tol6 = Fraction(1, 10 ** 6)
         for l in range(min(len(obs["Nl"]), obs["n_stat_levels"])):
             n = obs["draws"][l]
-            if n == 0 or obs["Nl"][l] != n:
+            n_levels += 1
+            if n == 0:
+                continue                               # nothing simulated, nothing adjusted
+            if obs["Nl"][l] != n:
+                n_skip_count += 1                      # already reported by check_c05 (N_l differs from the paths simulated)
+                res.bump("cv_levels_skipped (N_l differs from the simulated paths: reported as a violation)", 1)
+                skip = True
                 continue
             adj = np.array(st.mc_statistics[l]._payoff_statistics_with_cv.stats)[:, 0, :]
             X = np.array(st.mc_statistics[l]._control_variates_statistics.stats)
             raw = [D.raw_value(spec, l, k) for k in range(n)]
+            sides = {}
             for side in (0, 1):
                 if l == 0 and side == 1:
                     want_adj = [Fraction(0)] * n
@@ -263,17 +297,38 @@ def _control_variates(res, rng):
                     want_adj, b, ill = cv_adjusted(y, xs, [Fraction(p) for p in prices])
                     if ill:
                         skip = True
+                        n_skip_ill += 1
                         res.bump("cv_levels_skipped (Sigma_X singular or ill-conditioned)", ncv)
                         continue
                     res.bump("cv_levels_checked", ncv)
-                if any(abs(Fraction(float(adj[k, side])) - want_adj[k]) > Fraction(1, 10 ** 6) * max(1, abs(want_adj[k])) for k in range(n)):
+                sides[side] = want_adj
+                if any(abs(Fraction(float(adj[k, side])) - want_adj[k]) > tol6 * max(sc, abs(want_adj[k])) for k in range(n)):
                     res.violation("control-variate adjusted rows are not Y - b*(X - price) with the regression coefficient of the simulated samples",
                                   D.replay_payload(spec, obs, level=l, side=side, stored=[float(v) for v in adj[:, side]],
                                                    expected=[float(v) for v in want_adj]))
                 total += (1 if side == 0 else -1) * sum(want_adj) / n
-        if not skip and abs(Fraction(obs["price"]) - total) > Fraction(1, 10 ** 6) * max(1, abs(total)):
+            if len(sides) == 2:                        # ml, vl, ... with controls: the stated functions of the ADJUSTED rows
+                n_checked += 1
+                tb = D.textbook_fields(list(zip(sides[0], sides[1])))
+                for name, val in tb.items():
+                    scale = sc if name in ("ml", "mean_level_l") else (sc * sc if name in ("vl", "var_level_l") else 1)
+                    if name == "kurtosis":     # the code goes through the raw moments: cancellation error ~ eps * E[dp^4] / max(1, var)^2
+                        dd = [a - c for a, c in zip(sides[0], sides[1])]
+                        m = sum(dd) / len(dd)
+                        var = sum(x * x for x in dd) / len(dd) - m * m
+                        scale = max(Fraction(1), 10 ** 4 * sum(x ** 4 for x in dd) / len(dd) / max(Fraction(1), var) ** 2 / 10 ** 9)
+                    got = obs[name][l]
+                    if not (got == got) or abs(Fraction(got) - val) > Fraction(1, 10 ** 5) * max(scale, abs(val)):
+                        res.violation(f"with control variates mlmc_results.{name} is not the stated function of the adjusted samples",
+                                      D.replay_payload(spec, obs, level=l, reported=got, from_adjusted_samples=float(val)))
+        if not skip and abs(Fraction(obs["price"]) - total) > tol6 * max(sc, abs(total)):
             res.violation("price() with control variates is not the sum of per-level means of the adjusted samples",
                           D.replay_payload(spec, obs, reported=obs["price"], from_samples=float(total)))
+    res.bump("cv_levels_total", n_levels)
+    res.bump("cv_levels_results_checked", n_checked)
+    if n_levels and (n_skip_ill > 0.25 * n_levels or n_checked < 0.4 * n_levels):
+        res.broke("control-variate oracle coverage", f"{n_skip_ill} of {n_levels} levels skipped as ill-conditioned, only {n_checked} fully checked: "
+                  "the multilevel control-variate path is not being exercised")
 
 
 def search(res):
@@ -295,6 +350,18 @@ def search(res):
 def replay(path):
     data = json.load(open(path))
     print(json.dumps({k: v for k, v in data.items() if k != "observed"}, indent=1)[:3000])
+    if data.get("kind") == "sequence":
+        specs = data["sequence"]
+        rc = 0
+        for k, obs in enumerate(D.run_engine_seq(specs)):
+            if obs["raised"]:
+                print(f"pricing {k} raised", obs["raised"])
+                return 1
+            print(f"pricing {k}: N_l {obs['Nl']}, level-0 fine rows x1024: {[float(x) * 1024 for x in obs['fine'][0]][:6]}")
+            for what, det in D.check_c05(specs[k], obs):
+                print("VIOLATED:", what, det)
+                rc = 1
+        return rc
     if data.get("kind") not in ("adaptive", "fixed"):
         print("replay: re-run ./check C05")
         return 1
